@@ -222,9 +222,11 @@ cbc_decrypt(br_sslrec_in_cbc_context *cc,
 	 */
 	good &= LE(len_nomac, 16384);
 
+	BR_VERIF_PUBLIC(good);
 	if (!good) {
 		return 0;
 	}
+	BR_VERIF_PUBLIC(len_nomac);
 	*data_len = len_nomac;
 	return buf;
 }
